@@ -487,6 +487,9 @@ func (c *Cache) copyFile(file io.ReadSeeker, out OutputID, size int64) error {
 			var out2 OutputID
 			h.Sum(out2[:0])
 			if out == out2 {
+				// The output is being stored again: mark it as used, so that
+				// Trim does not remove the data of an entry that was just stored.
+				c.used(name)
 				return nil
 			}
 		}
